@@ -18,7 +18,7 @@ RULE = (
 BOUNDS = {
     "quick": "all factory function names x arity 0..3 x 7 qualifier sets (up to four qualifiers) (canonical + every single-gap deviation for unqualified arity<=2); "
     "component kinds and nests to depth 3 with all <=2-gap deviations; 1..3-component programs with run comparison",
-    "thorough": "as quick with all single-gap deviations for every function AST, nests to depth 4, <=3-gap deviations for component kinds, and "
+    "thorough": "as quick with all single-gap deviations for every function AST (two-gap for unqualified arity<=2), nests to depth 4, <=3-gap (short kinds 4-gap) deviations for component kinds, programs with all <=2-gap and boundary <=4-gap layouts, and "
     "the whole quick space re-parsed with the grammar memoisation off",
 }
 CHUNK = 4
@@ -207,10 +207,12 @@ def cases(tier, seed):
         for ar in range(0, 4):
             for qi, qs in enumerate(QSETS):
                 dev = 1 if (tier == "thorough" or (qi == 0 and ar <= 2)) else 0
+                if tier == "thorough" and qi == 0 and ar <= 2:
+                    dev = 2
                 yield {"comps": [fn(nm, qs, ARGS[:ar])], "dev": dev, "fam": "fn"}
     kd = 2 if tier == "quick" else 3
     for k in kinds():
-        yield {"comps": [k], "dev": kd if _ntok(k) <= 9 else 2, "fam": "kind"}
+        yield {"comps": [k], "dev": (kd + 1 if tier == "thorough" and _ntok(k) <= 4 else kd) if _ntok(k) <= 9 else 2, "fam": "kind"}
     for n in nests(3 if tier == "quick" else 4):
         yield {"comps": [n], "dev": 1 if _ntok(n) > 12 else 2, "fam": "nest"}
     progs = [
@@ -222,8 +224,8 @@ def cases(tier, seed):
         [["==", fn("lower", [], [H]), ["t", "k", "str"]], ["=", ["v", "x", ["k"]], ["h", "1"]], fn("stop", [], [["==", ["h", "1"], ["t", "2", "int"]]])],
     ]
     for p in progs:
-        yield {"comps": p, "dev": 1, "fam": "prog", "run": True}
-        yield {"comps": p, "dev": 3, "fam": "prog", "run": True, "bounds": True}
+        yield {"comps": p, "dev": 1 if tier == "quick" else 2, "fam": "prog", "run": True}
+        yield {"comps": p, "dev": 3 if tier == "quick" else 4, "fam": "prog", "run": True, "bounds": True}
 
 
 def _ntok(n):
